@@ -442,34 +442,8 @@ def check_block_left_at_end(ctx, facts):
                         steps.append(site)
         # (C) carriers: locals whose value is copied into a store of cur_block_idx / cur_block_offset (the batch
         # path's `final_block_idx`, `final_block_offset`); an assignment `carrier := x + 1` is a step as well
-        def carriers(field):
-            cs, work = set(), []
-            for site, st in b.assigns():
-                p = st["place"]
-                if p["p"] and isinstance(p["p"][-1], dict) and p["p"][-1].get("n") == field and st["rv"]["k"] in ("use", "cast"):
-                    work.append(st["rv"]["op"])
-            # the commit may sit in a closure of this function: a captured variable `_1.<name>` stands for the
-            # parent's local of that name
-            names = set()
-            for c in facts.closures_of(b):
-                for site, st in c.assigns():
-                    p = st["place"]
-                    if p["p"] and isinstance(p["p"][-1], dict) and p["p"][-1].get("n") == field and st["rv"]["k"] in ("use", "cast"):
-                        m = re.match(r"^_1\.(\w+)$", show(strip_refs(expr(c, c.resolve_copy(st["rv"]["op"]))), 6))
-                        if m:
-                            names.add(m.group(1))
-            byname = [l for l in b.defs if b.local_name(l) in names]
-            work.extend({"k": "copy", "place": {"l": l, "p": []}} for l in byname)
-            while work:
-                o = b.resolve_copy(work.pop())
-                l = op_local(o)
-                if l is None or l in cs:
-                    continue
-                cs.add(l)
-                for s_, k_, n_ in b.defs.get(l, []):
-                    if k_ == "assign" and n_["rv"]["k"] in ("use", "cast"):
-                        work.append(n_["rv"]["op"])
-            return cs
+        from .c02 import cursor_carriers
+        carriers = lambda field: cursor_carriers(facts, b, field)
         idx_car = carriers("cur_block_idx")
         off_car = carriers("cur_block_offset")
         seen_steps = {(s_.bb, s_.idx) for s_ in steps}
